@@ -672,6 +672,10 @@ func main() {
 		}
 		e.eval(st)
 	}
+	// writer side: real Send on one end, real Receive on the other, both directions
+	for i := 0; i < o.N(200, 4000) && r.InfraError == ""; i++ {
+		e.sendRecv(genSR(rnd))
+	}
 	// rcvBuf below the header size: the slice expression b[:8] panics (C05_small_buffer); reported under C13
 	for rb := 0; rb < 8 && r.InfraError == ""; rb++ {
 		f := goodFrame(rnd, 8)
@@ -679,7 +683,7 @@ func main() {
 	}
 	for _, b := range []string{"kind:clean", "kind:toosmall", "kind:toolarge", "kind:errframe", "kind:errgarbage", "kind:truncated", "kind:smallbuf",
 		"stop:eof", "stop:ueof", "stop:toolarge", "stop:toosmall", "stop:errf", "stop:errdecode", "stop:panic",
-		"after-real-handshake", "seg:whole", "seg:bytewise", "seg:perframe", "seg:headersplit", "seg:random", "seg:randomempty"} {
+		"sendrecv:send-refused", "sendrecv:sent", "sendrecv-msg:hello", "sendrecv-msg:ack", "sendrecv-msg:rhe", "sendrecv-msg:err", "sendrecv-dir:dialled-end-sends", "sendrecv-dir:accepted-end-sends", "after-real-handshake", "seg:whole", "seg:bytewise", "seg:perframe", "seg:headersplit", "seg:random", "seg:randomempty"} {
 		if r.Distribution[b] == 0 {
 			r.Unreached = append(r.Unreached, b)
 		}
